@@ -1575,6 +1575,14 @@ def _rel_scale(case, o, s, model, grouper, data, mask, error, init, names, bound
             # reproduce the unscaled result.  scipy's TRF measures trust region and xtol in a norm that mixes pixels
             # and counts (x_scale = 1): on a one-sided, edge-clipped window it stops short for some image scales.
             rows_g = [kk for (kk, *_rest) in lst]
+            fl_a, fl_b = np.asarray(_col(tbl, 'flags'), int), np.asarray(_col(t2, 'flags'), int)
+            if any((int(fl_b[kk]) & 8) and not (int(fl_a[kk]) & 8) for kk in rows_g):
+                # the library itself reports that the SCALED fit may not have converged (flag 8: the trusted
+                # optimiser stopped on its evaluation limit; seen at thorough seed 4: grouped fit, image 1e-11 x
+                # 0.01) while the unscaled one did: the comparison is between a converged and an unconverged fit.
+                # Undecided, counted (as in the recovery checks).
+                case.note('scale_relation_undecided_library_flagged_nonconvergence')
+                continue
             tol = dict(pos=max(pt for (*_a, pt) in lst), flux=max(rt for (_, _, _, rt, _, _) in lst))
             ok_ind = _independent_fit_recovers(model, t2, rows_g, s, o, np.asarray(d2, float), mask,
                                                None if e2 is None else np.asarray(e2, float), bx, by, _col(tbl, 'x_fit'),
